@@ -209,6 +209,19 @@ func units(tier string, prop string, mon Monitor) []runner.Unit {
 			RunOne(u, base, pats, explore.Bound{}, mon)
 		}})
 	}
+	// idle first: the connection is dialled, the readers wait, nobody writes for a while
+	us = append(us, runner.Unit{Name: "idle-before-first-write", Cost: 2, Run: func(u *runner.U) {
+		i := 0
+		for _, mode := range []string{"socks5-request-first", "no-wait", "raw"} {
+			for _, idle := range []time.Duration{45 * time.Second, 61 * time.Second, 110 * time.Second, 5 * time.Minute} {
+				i++
+				p := Params{CW: []int{900, 2000}, SW: []int{1500, 700}, RB: 4096, Raw: mode == "raw", NoWait: mode == "no-wait", IdleFirst: idle, CTP: "nil", STP: "nil", NSess: 1}
+				p.Prop, p.Seed = prop, int64(3600+i)
+				p.Horizon = idle + 120*time.Second
+				RunOne(u, p, pats, explore.Bound{}, mon)
+			}
+		}
+	}})
 	// (4) schedules: all executions with <= Ds deviations on base scenarios
 	schedBases := []Params{
 		{CW: []int{1, 1025}, SW: []int{2000}, RB: 4096, CTP: "nil", STP: "nil", NSess: 2},
@@ -231,6 +244,7 @@ func units(tier string, prop string, mon Monitor) []runner.Unit {
 	}
 	us = append(us, siblingUnits(prop)...)
 	us = append(us, lateResponseUnits(prop)...)
+	us = append(us, deadlineStraddleUnits(prop)...)
 	return us
 }
 
@@ -456,6 +470,130 @@ func lateResponseUnits(prop string) []runner.Unit {
 			}
 			u.Explore(explore.Bound{}, name, func(ctl *explore.Ctl) explore.Result {
 				r, _ := run(mark, ctl)
+				return r
+			})
+			u.Distinct(name)
+		}
+	}}}
+}
+
+// deadlineStraddleUnits: after a long idle period a segment reaches the server in two parts, the
+// first just before the idle read deadline of the connection expires, the rest just after: a
+// connection that is alive and well must keep working.
+func deadlineStraddleUnits(prop string) []runner.Unit {
+	return []runner.Unit{{Name: "segment-straddles-the-idle-read-deadline", Cost: 2, Run: func(u *runner.U) {
+		for i, first := range []int64{1, 10, 48, 60} {
+			first := first
+			name := fmt.Sprintf("TCP, one idle proxy connection; the first %d bytes of the next segment arrive 2 ms before the server's idle read deadline, the rest 5 ms later", first)
+			u.Sample(name)
+			run := func(holdAt int64, ctl *explore.Ctl) (explore.Result, int64) {
+				v := &Verdict{Prop: prop + "/idle-deadline-straddle"}
+				cfg := world.Config{MTU: 1400, Seed: int64(3500 + i), Horizon: 400 * time.Second, RawMux: true}
+				if holdAt > 0 {
+					cfg.C2S.HoldAt, cfg.C2S.HoldFor = holdAt, 5*time.Millisecond
+				}
+				var mark int64
+				ex := world.Run(cfg, ctl, func(w *world.World) {
+					w.Go("srv", "server", func() {
+						for {
+							c, err := w.RawAccept()
+							if err != nil {
+								return
+							}
+							w.Go("echo", "server", func() {
+								buf := make([]byte, 4096)
+								for {
+									n, err := c.Read(buf)
+									if n > 0 {
+										c.Write(buf[:n])
+									}
+									if err != nil && !world.IsTimeout(err) {
+										c.Close()
+										return
+									}
+								}
+							})
+						}
+					})
+					a, err := w.RawDial()
+					if err != nil {
+						v.Add("dial-failed", "%v", err)
+						return
+					}
+					exchange := func(off, n int, what string) bool {
+						m := world.Pattern(1, 'c', off, n)
+						if wn, err := a.Write(m); err != nil {
+							v.Add("write-error", "%s: Write returned (%d, %v); the connection was never closed", what, wn, err)
+							return false
+						}
+						got := make([]byte, n)
+						a.SetReadDeadline(w.S.Now().Add(30 * time.Second))
+						rn, err := io.ReadFull(a, got)
+						switch {
+						case err == io.EOF || err == io.ErrUnexpectedEOF:
+							v.Add("early-eof", "%s: clean end of stream after %d of %d echoed bytes; the connection was never closed", what, rn, n)
+							return false
+						case err != nil:
+							v.Add("read-error", "%s: read %d of %d echoed bytes: %v", what, rn, n, err)
+							return false
+						case !bytes.Equal(got, m):
+							v.Add("mismatch", "%s: the echo differs", what)
+							return false
+						}
+						return true
+					}
+					if !exchange(0, 200, "first exchange") {
+						return
+					}
+					if len(w.Net.Conns) == 0 {
+						v.Add("setup", "no connection")
+						return
+					}
+					srvEnd := w.Net.Conns[0].Peer()
+					// wait until 2 ms before the server's idle read deadline (it is re-armed whenever a
+					// read times out with nothing received)
+					for k := 0; k < 10; k++ {
+						d := srvEnd.ReadDeadlineNS()
+						if d == 0 {
+							vsched.Sleep(time.Millisecond)
+							continue
+						}
+						if wait := d - w.S.NowNS() - int64(2*time.Millisecond); wait > 0 {
+							vsched.Sleep(time.Duration(wait))
+						}
+						if srvEnd.ReadDeadlineNS() == d {
+							break
+						}
+					}
+					for _, t := range w.Net.Streams {
+						if t.Dir == "c2s" {
+							mark += int64(len(t.Data))
+						}
+					}
+					if !exchange(200, 300, "exchange whose first segment straddles the idle read deadline") {
+						return
+					}
+					vsched.Sleep(100 * time.Millisecond)
+					exchange(500, 100, "exchange after the straddling segment")
+					a.Close()
+					w.Shutdown()
+				})
+				for _, pn := range ex.Panics {
+					v.Add("panic", "%s", pn)
+				}
+				out := "ok"
+				if len(v.Viol) > 0 {
+					out = v.Viol[0].Signature
+				}
+				return explore.Result{Outcome: out, Violations: v.Viol, Steps: ex.Steps}, mark
+			}
+			_, mark := run(0, explore.NewCtl(nil))
+			if mark == 0 {
+				u.EngineError("deadline-straddle: the first pass did not get to the second exchange")
+				return
+			}
+			u.Explore(explore.Bound{}, name, func(ctl *explore.Ctl) explore.Result {
+				r, _ := run(mark+first, ctl)
 				return r
 			})
 			u.Distinct(name)
